@@ -189,3 +189,10 @@ func isDNE(v interface{}) bool { return v == eval.DNE }
 func engineVal(v interface{}) interface{} { return eval.UnifyType(v) }
 
 var extremeInts = []int64{math.MinInt64, math.MinInt64 + 1, -1, 0, 1, math.MaxInt64 - 1, math.MaxInt64}
+
+// tableGuard: DumpTable text of a variant (real nodes only), "" if it panics.
+func tableGuard(v *Variant) string {
+	var s string
+	guard(func() (eval.Value, error) { s = eval.DumpTable(v.E, true); return nil, nil })
+	return s
+}
